@@ -335,8 +335,15 @@ def check_geometry(lens, ra, tags, lens_as=None):
             mid = perm[1:-1]
             rr_.shuffle(mid)
             vecs = [[perm[0]] + mid + [perm[-1]] if tot > 1 else perm, perm[::-1], sorted(rr_.choice(perm) for _ in perm), sorted(set(rr_.choice(perm) for _ in range(max(1, tot // 2))))]
-            for pv in vecs:
+            vecs.append([rr_.choice(perm) for _ in range(2 * tot + 3)])        # more look-ups than cells, unordered, with repeats
+            for vi_, pv in enumerate(vecs):
                 want = [[cells[p_][0] for p_ in pv], [cells[p_][1] for p_ in pv]]
+                # the position vector in any integer type that holds the positions (unsigned ones: differences of unsigned numbers wrap), also as a python list
+                fits_ = [d_ for d_ in ("int64", "uint64", "uint32", "int32", "uint16", "int16", "uint8", "int8") if tot - 1 <= np.iinfo(d_).max]
+                pdt_ = fits_[(vi_ + tot + n) % len(fits_)]
+                r = G("unravel_multi_index(position vector, %s)" % pdt_, lambda: [np.asarray(x).tolist() for x in shape.unravel_multi_index(np.array(pv, dtype=pdt_))], want)
+                if r:
+                    return r
                 r = G("unravel_multi_index(position vector)", lambda: [np.asarray(x).tolist() for x in shape.unravel_multi_index(np.array(pv, dtype=np.int64))], want)
                 if r:
                     return r
@@ -501,6 +508,25 @@ def random_case(rng, tier):
     if ctor == "mixedrows":
         c.update(mixed_case(rng, lens))
     return c
+
+
+def const_case(rng, tier, s, form):
+    """sizes taken from the numeric constants of the source (rtmon/codeconst.py).  For a constant the harness has not seen before, the same row lengths
+    are built through EVERY constructor form (one case each, element types rotating); otherwise one random case with the forced size."""
+    if not gen.FORCED.get("novel"):
+        c = random_case(rng, tier)
+        return c if gen.FORCED["used"] else None
+    out = []
+    dts = ["int64", "uint8", "float64", "bool", "int32", "int16", "float32", "uint64"]
+    for k, ctor in enumerate(CTORS[:-1]):
+        gen.FORCED["used"] = 0
+        lens, _ = gen.length_vector(rng, tier)          # (its own row lengths of that size and form for every constructor)
+        dtype = dts[(k + s) % len(dts)]
+        c = mk_case(lens, dtype, ctor, "small", rng=rng, saveload=(k % 5 == 0))
+        if ctor == "mixedrows":
+            c.update(mixed_case(rng, lens))
+        out.append(c)
+    return out
 
 
 def mixed_case(rng, lens):
